@@ -70,6 +70,11 @@ def _conf_worker(arg):
 
 def fallback_solve(smt2, timeout_s=60):
     """Try the other installed solvers on an obligation z3 5.1 left open. Returns (result, backend)."""
+    # z3's simplifier rewrites seq.nth into its internal seq.nth_i / seq.nth_u pair (in-bounds / out-of-bounds
+    # halves of the same function); SMT-LIB's seq.nth is exactly their union, so the textual replacement is sound.
+    smt2 = smt2.replace("seq.nth_u", "seq.nth").replace("seq.nth_i", "seq.nth")
+    if "(set-logic" not in smt2:
+        smt2 = "(set-logic ALL)\n" + smt2
     with tempfile.NamedTemporaryFile("w", suffix=".smt2", delete=False, dir=os.path.join(OUT, "evidence")) as f:
         f.write(smt2)
         fn = f.name
@@ -177,7 +182,7 @@ def main(argv=None):
     for rj in results:
         for name, ob in rj["obligations"].items():
             if ob["status"] == "unknown" and ob.get("smt2"):
-                r, backend = fallback_solve(ob["smt2"], 60 if a.tier == "quick" else 180)
+                r, backend = fallback_solve(ob["smt2"], 20 if a.tier == "quick" else 180)
                 if r == "unsat":
                     ob["status"] = "discharged"
                     ob["backend"] = backend
